@@ -589,6 +589,38 @@ def _forced(e):
     return r == "unsat"
 
 
+def origin_of(term):
+    o = _ORIGIN.get(term.get_id()) if z3.is_expr(term) else None
+    return o[1] if o is not None else None
+
+
+def elem_in(x, values):
+    """is the (possibly symbolic) element x one of the concrete `values`?  Decided concretely when x is a table
+    look-up whose table lies wholly inside/outside the set; otherwise by the solver (forks when undecided)."""
+    values = list(values)
+    if isinstance(x, SInt):
+        c = x.concrete()
+        if c is not None:
+            return c in values
+        org, e = x.origin, x.e
+    elif isinstance(x, int):
+        return x in values
+    elif isinstance(x, str):
+        return ord(x) in values
+    else:
+        org, e = origin_of(x), x
+    if org is not None:
+        tv = set(org[0].values)
+        vs = set(values)
+        if tv <= vs:
+            return True
+        if not (tv & vs):
+            return False
+    if not values:
+        return False
+    return bool(SBool(z3.Or(*[e == z3.BitVecVal(v, e.size()) for v in values])))
+
+
 def fuse(enc, dec):
     """check that dec o enc is the identity on enc's domain (composition in STable.__getitem__ then cancels)"""
     return all(v < dec.n for v in enc.values) and all(dec.values[enc.values[i]] == i for i in range(enc.n))
